@@ -1,3 +1,7 @@
 import OdfProofs.Coord
 import OdfProofs.Addr
 import OdfProofs.Codec
+import OdfProofs.Ws
+import OdfProofs.Ws2
+import OdfProofs.Ws3
+import OdfProofs.Ws4
